@@ -22,31 +22,7 @@ def run(ctx, w):
                    "R9 the saved cursor is clamped by the re-layout on every path"]
     ctx.not_decided = ["lines.len() >= rows, row < rows, col <= cols as arithmetic facts of Buffer::resize / reflow", "strict monotonicity of Changes.lines (follows from the enumerate-based export; shape checked in C15.M4)"]
 
-    ctor = S.term_ty + "::new"
-    ctx.rule("R1", "cols/rows of the terminal are written only by its constructor and its resize entry; after the write every path re-lays out")
-    cols_p, rows_p = ("arg1", R["cols"]), ("arg1", R["rows"])
-    for fn in sorted(w.bodies):
-        if S._impl_of(fn) != S.term_ty:
-            continue
-        wr = [pt for pt, ps in E.stmt_writes[fn].items() if cols_p in ps or rows_p in ps]
-        if not wr:
-            continue
-        ctx.check(fn == S.resize_fn, "R1", "writer:" + fn, "%s writes the terminal size; only the resize entry may" % fn, loc=w.stmt_loc(fn, wr[0]), sample={"writer": fn})
-        if fn == S.resize_fn:
-            b = w.body(fn)
-            rl = {cs.point for cs in E.call_sites(fn) if cs.callee in S.relayout_fns}
-            for pt in wr:
-                ctx.check(b.every_path_to_return_hits(pt, rl), "R1", "relayout-after:" + shared.site_key(w, fn, pt), "%s changes the size but some path returns without re-laying out the buffer" % fn, loc=w.stmt_loc(fn, pt))
-            T = w.terms(fn)
-            for f2, pt, p, t in w.assign_sites({fn}, lambda p: p in (cols_p, rows_p)):
-                want = ("load", ("arg2",)) if p == cols_p else ("load", ("arg3",))
-                ctx.check(WD.strip_names(t) == want, "R1", "value:" + p[1], "%s sets %s to %s; size() must report the geometry last requested" % (fn, p[1], w.tstr(fn, t)), loc=w.stmt_loc(fn, pt), sample={"field": p[1], "value": w.tstr(fn, t)})
-    ctx.floor("R1", 5, "size writers")
-
-    # ---- R2 ---------------------------------------------------------------------------------------
-    ctx.rule("R2", "the re-layout calls Buffer::resize(self.cols, self.rows, (cursor.col, cursor.row)) on every path, stores the result in the cursor and resizes the dirty set to self.rows")
-    if len(S.relayout_fns) != 1:
-        ctx.missing_anchor("R2", "re-layout routine")
+    if relayout_rules(ctx, w, S, R) is None:
         return
     rl = next(iter(S.relayout_fns))
     b = w.body(rl)
@@ -54,21 +30,6 @@ def run(ctx, w):
     cols_t, rows_t = ("load", ("arg1", R["cols"])), ("load", ("arg1", R["rows"]))
     col_t, row_t = ("load", ("arg1", cur, "col")), ("load", ("arg1", cur, "row"))
     rs = [cs for cs in E.call_sites(rl, S.buffer_resize_fn)]
-    ok = len(rs) == 1 and b.every_path_to_return_hits((0, 0), {rs[0].point}, include_start=True)
-    ctx.check(ok, "R2", "resize:always", "%s does not resize the active buffer on every path" % rl, loc=w.fn_loc(rl), sample={"relayout": rl, "buffer_resize": S.buffer_resize_fn})
-    if rs:
-        a = [WD.strip_names(T.operand(x, rs[0].point)) for x in rs[0].term["args"]]
-        want = [("ref", True, ("load", ("arg1", S.active_buffer))), cols_t, rows_t, ("tuple", (col_t, row_t))]
-        ctx.check(a == want, "R2", "resize:args", "the buffer is resized with %s, expected (&mut active buffer, cols, rows, (cursor.col, cursor.row))" % [w.tstr(rl, x) for x in a], loc=w.site_loc(rs[0]),
-                  sample={"args": [w.tstr(rl, x) for x in a]})
-        got = {p: WD.strip_names(t) for f2, pt, p, t in w.assign_sites({rl}, lambda p: p in (("arg1", cur, "col"), ("arg1", cur, "row")))}
-        okc = S.buffer_resize_fn in repr(got.get(("arg1", cur, "col"))) and S.buffer_resize_fn in repr(got.get(("arg1", cur, "row"))) \
-            and got[("arg1", cur, "col")][0] == "field" and got[("arg1", cur, "col")][2] == "0" and got[("arg1", cur, "row")][2] == "1"
-        ctx.check(okc, "R2", "cursor", "the cursor is not set to the (col, row) returned by the buffer's resize: %s" % {M.path_str(k): w.tstr(rl, v) for k, v in got.items()}, loc=w.fn_loc(rl))
-    dr = [cs for cs in E.call_sites(rl) if cs.callee in S.dl_unmark and len(cs.term["args"]) == 2]
-    okd = len(dr) == 1 and b.every_path_to_return_hits((0, 0), {dr[0].point}, include_start=True) and WD.strip_names(T.operand(dr[0].term["args"][1], dr[0].point)) == rows_t
-    ctx.check(okd, "R2", "dirty:resize", "%s does not resize the dirty set to self.rows on every path" % rl, loc=w.fn_loc(rl), sample={"calls": [c.callee for c in dr]})
-    ctx.floor("R2", 4, "re-layout obligations")
 
     from rules import c16, c17, c04, c05
     c16.relayout_after_switch(ctx, w, S, R, rule="R3")
@@ -364,3 +325,95 @@ def row_units(ctx, w, S, R, rule):
                           "%s compares the row index %s with the row count %s using %s: a row equal to the count is already outside (rows are 0..count-1), so the boundary case is treated as inside" %
                           (fn, w.tstr(fn, l)[:50], w.tstr(fn, r)[:50], op), loc=w.stmt_loc(fn, (bl, i)), sample={"fn": fn, "index": w.tstr(fn, l)[:50], "count": w.tstr(fn, r)[:50], "op": op})
     ctx.floor(rule, 1, "row index / row count comparisons")
+
+
+def resize_entry_frame(ctx, w, S, R, rule):
+    """The resize entry moves the cursor ONLY through the re-layout (which translates it together with the text); it
+    never places the cursor itself (homing, clamping to a margin, ...) and never touches pen / modes."""
+    E = w.E
+    fn = S.resize_fn
+    cur = R["cursor"]
+    T = w.terms(fn)
+    keep = [(cur, "col"), (cur, "row"), (R["pending_wrap"],), (R["pen"],), (R["origin_mode"],), (R["auto_wrap_mode"],), (R["insert_mode"],), (R["new_line_mode"],), (R["active_charset"],)]
+
+    def hits(paths):
+        out = set()
+        for p in paths:
+            if p[0] != "arg1":
+                continue
+            for k in keep:
+                if tuple(p[1:1 + len(k)]) == k or (len(p) == 2 and p[1] == k[0]):
+                    out.add(".".join(k))
+        return out
+    for pt, ps in sorted(E.stmt_writes[fn].items()):
+        cs = [c for c in E.call_sites(fn) if c.point == pt]
+        if cs and cs[0].callee in S.relayout_fns:
+            continue
+        h = hits(ps)
+        ctx.check(not h, rule, "%s:frame:%s" % (fn, shared.site_key(w, fn, pt)),
+                  "%s changes %s outside the re-layout: on a resize the cursor must only be translated together with the text (and pen / modes stay)" % (fn, sorted(h)), loc=w.stmt_loc(fn, pt),
+                  sample={"fn": fn, "writes": sorted(h)})
+    for cs in E.call_sites(fn):
+        if cs.callee in S.relayout_fns:
+            continue
+        h = hits(cs.W)
+        ctx.check(not h, rule, "%s:frame:%s" % (fn, shared.site_key(w, fn, cs.point)),
+                  "%s calls %s, which changes %s, outside the re-layout: on a resize the cursor must only be translated together with the text (and pen / modes stay)" % (fn, cs.callee, sorted(h)),
+                  loc=w.site_loc(cs), sample={"fn": fn, "callee": cs.callee, "writes": sorted(h)})
+    # and the re-layout stores exactly what the buffer's resize returned (checked by R2)
+
+
+def relayout_rules(ctx, w, S, R):
+    """R1 + R2: who writes the size, the re-layout follows on every path, its operands, and where its result goes."""
+    E = w.E
+    cur = R["cursor"]
+    ctor = S.term_ty + "::new"
+    ctx.rule("R1", "cols/rows of the terminal are written only by its constructor and its resize entry; after the write every path re-lays out")
+    cols_p, rows_p = ("arg1", R["cols"]), ("arg1", R["rows"])
+    for fn in sorted(w.bodies):
+        if S._impl_of(fn) != S.term_ty:
+            continue
+        wr = [pt for pt, ps in E.stmt_writes[fn].items() if cols_p in ps or rows_p in ps]
+        if not wr:
+            continue
+        ctx.check(fn == S.resize_fn, "R1", "writer:" + fn, "%s writes the terminal size; only the resize entry may" % fn, loc=w.stmt_loc(fn, wr[0]), sample={"writer": fn})
+        if fn == S.resize_fn:
+            b = w.body(fn)
+            rl = {cs.point for cs in E.call_sites(fn) if cs.callee in S.relayout_fns}
+            for pt in wr:
+                ctx.check(b.every_path_to_return_hits(pt, rl), "R1", "relayout-after:" + shared.site_key(w, fn, pt), "%s changes the size but some path returns without re-laying out the buffer" % fn, loc=w.stmt_loc(fn, pt))
+            T = w.terms(fn)
+            for f2, pt, p, t in w.assign_sites({fn}, lambda p: p in (cols_p, rows_p)):
+                want = ("load", ("arg2",)) if p == cols_p else ("load", ("arg3",))
+                ctx.check(WD.strip_names(t) == want, "R1", "value:" + p[1], "%s sets %s to %s; size() must report the geometry last requested" % (fn, p[1], w.tstr(fn, t)), loc=w.stmt_loc(fn, pt), sample={"field": p[1], "value": w.tstr(fn, t)})
+    resize_entry_frame(ctx, w, S, R, "R1")
+    ctx.floor("R1", 5, "size writers")
+
+    # ---- R2 ---------------------------------------------------------------------------------------
+    ctx.rule("R2", "the re-layout calls Buffer::resize(self.cols, self.rows, (cursor.col, cursor.row)) on every path, stores the result in the cursor and resizes the dirty set to self.rows")
+    if len(S.relayout_fns) != 1:
+        ctx.missing_anchor("R2", "re-layout routine")
+        return None
+    rl = next(iter(S.relayout_fns))
+    b = w.body(rl)
+    T = w.terms(rl)
+    cols_t, rows_t = ("load", ("arg1", R["cols"])), ("load", ("arg1", R["rows"]))
+    col_t, row_t = ("load", ("arg1", cur, "col")), ("load", ("arg1", cur, "row"))
+    rs = [cs for cs in E.call_sites(rl, S.buffer_resize_fn)]
+    ok = len(rs) == 1 and b.every_path_to_return_hits((0, 0), {rs[0].point}, include_start=True)
+    ctx.check(ok, "R2", "resize:always", "%s does not resize the active buffer on every path" % rl, loc=w.fn_loc(rl), sample={"relayout": rl, "buffer_resize": S.buffer_resize_fn})
+    if rs:
+        a = [WD.strip_names(T.operand(x, rs[0].point)) for x in rs[0].term["args"]]
+        want = [("ref", True, ("load", ("arg1", S.active_buffer))), cols_t, rows_t, ("tuple", (col_t, row_t))]
+        ctx.check(a == want, "R2", "resize:args", "the buffer is resized with %s, expected (&mut active buffer, cols, rows, (cursor.col, cursor.row))" % [w.tstr(rl, x) for x in a], loc=w.site_loc(rs[0]),
+                  sample={"args": [w.tstr(rl, x) for x in a]})
+        got = {p: WD.strip_names(t) for f2, pt, p, t in w.assign_sites({rl}, lambda p: p in (("arg1", cur, "col"), ("arg1", cur, "row")))}
+        okc = S.buffer_resize_fn in repr(got.get(("arg1", cur, "col"))) and S.buffer_resize_fn in repr(got.get(("arg1", cur, "row"))) \
+            and got[("arg1", cur, "col")][0] == "field" and got[("arg1", cur, "col")][2] == "0" and got[("arg1", cur, "row")][2] == "1"
+        ctx.check(okc, "R2", "cursor", "the cursor is not set to the (col, row) returned by the buffer's resize: %s" % {M.path_str(k): w.tstr(rl, v) for k, v in got.items()}, loc=w.fn_loc(rl))
+    dr = [cs for cs in E.call_sites(rl) if cs.callee in S.dl_unmark and len(cs.term["args"]) == 2]
+    okd = len(dr) == 1 and b.every_path_to_return_hits((0, 0), {dr[0].point}, include_start=True) and WD.strip_names(T.operand(dr[0].term["args"][1], dr[0].point)) == rows_t
+    ctx.check(okd, "R2", "dirty:resize", "%s does not resize the dirty set to self.rows on every path" % rl, loc=w.fn_loc(rl), sample={"calls": [c.callee for c in dr]})
+    ctx.floor("R2", 4, "re-layout obligations")
+
+    return True
